@@ -476,6 +476,25 @@ pub fn build_h(s: &Scenario, order: &[usize]) -> Result<(Registry, Vec<Handle>),
     Ok((reg, handles))
 }
 
+/// Rename one registry common label to a label name that a collector of the scenario uses itself (constant or variable). The
+/// registry applies its common labels regardless (the sample then carries the name twice - C09's known finding, which is
+/// about the validity of the exposition; what C07 states, "common labels applied to every sample", holds there too).
+pub fn add_common_clash(src: &mut Src, s: &mut Scenario) -> bool {
+    let own: Vec<String> = s.colls.iter().flat_map(|c| c.consts.keys().cloned().chain(c.vars.iter().cloned())).collect();
+    let Some(common) = s.common.as_mut() else { return false };
+    if own.is_empty() || common.is_empty() {
+        return false;
+    }
+    let target = own[src.below(own.len())].clone();
+    if common.contains_key(&target) {
+        return false;
+    }
+    let victim = common.keys().nth(src.below(common.len())).unwrap().clone();
+    let v = common.remove(&victim).unwrap();
+    common.insert(target, v);
+    true
+}
+
 /// Change the registered metrics through their second handles (generated: vectors are reset and refilled with the same tuples and new
 /// payloads, reset and left empty, lose one child or gain one; gauges are set again) and return the scenario that describes the new state.
 pub fn mutate(src: &mut Src, s: &Scenario, handles: &[Handle]) -> (Scenario, Vec<String>) {
